@@ -104,13 +104,25 @@ func TestConcurrentFirstSessions(t *testing.T) {
 		}
 		close(start)
 		wg.Wait()
-		time.Sleep(20 * time.Millisecond)
-		var got int64
-		if v, ok := delivered.Load(u); ok {
-			got = v.(*atomic.Int64).Load()
-		}
+		// both numbers are taken once they have stopped moving (the server application may still be draining on a loaded machine)
 		up := metrics.RegisterMetric(fmt.Sprintf(metrics.UserMetricGroupFormat, u), metrics.UserMetricUploadBytes, metrics.COUNTER_TIME_SERIES)
-		out.Emit(map[string]any{"ev": "first", "trial": i, "sessions": par, "delivered": got, "counted": up.Load()})
+		sample := func() (int64, int64) {
+			var got int64
+			if v, ok := delivered.Load(u); ok {
+				got = v.(*atomic.Int64).Load()
+			}
+			return got, up.Load()
+		}
+		got, counted := sample()
+		for w := 0; w < 100; w++ {
+			time.Sleep(20 * time.Millisecond)
+			g2, c2 := sample()
+			if g2 == got && c2 == counted && (w > 0 || got > 0) {
+				break
+			}
+			got, counted = g2, c2
+		}
+		out.Emit(map[string]any{"ev": "first", "trial": i, "sessions": par, "delivered": got, "counted": counted})
 	}
 	_ = io.EOF
 }
